@@ -177,6 +177,11 @@ func runC16B(args []string) error {
 		ss = append(ss, s)
 		light[s] = true
 	}
+	// large slice sizes (the rolling-checksum window tables are built differently above a few KiB)
+	for _, s := range []int{4092, 4096, 4100, 16384, 65536} {
+		ss = append(ss, s)
+		light[s] = true
+	}
 	idx := 0
 	for _, s := range ss {
 		residues := []int{}
